@@ -1,7 +1,7 @@
 (* Extract/Driver.v — dispatch : sexp -> sexp, the single entry point of the extracted model *)
 From Coq Require Import List Bool Ascii String ZArith.
 From FM Require Import Base.Result Base.Str Base.Sexp Base.AstOp Model.Ast Model.FM Model.Ctc
-     Model.Queries Model.Sem Model.Ops Model.EqHash Extract.Codec.
+     Model.Queries Model.Sem Model.Ops Model.EqHash Model.PFM Format.Json Format.Glencoe Format.Xml Extract.Codec.
 Import ListNotations.
 Open Scope string_scope.
 
@@ -164,6 +164,41 @@ Definition dispatch (req : sexp) : sexp :=
                       | Some a, Some b => op_eqq a b
                       | _, _ => bad "fm"
                       end
+        | _ => bad "arity"
+        end
+      else if String.eqb op "json_write" then
+        match args with
+        | [m] => match d_fm m with Some m' => e_result e_aval (json_write m') | None => bad "fm" end
+        | _ => bad "arity"
+        end
+      else if String.eqb op "json_read" then
+        match args with
+        | [v] => match d_aval v with Some v' => e_result e_pfm (json_read v') | None => bad "aval" end
+        | _ => bad "arity"
+        end
+      else if String.eqb op "glencoe_write" then
+        match args with
+        | [m] => match d_fm m with Some m' => e_result e_aval (glencoe_write m') | None => bad "fm" end
+        | _ => bad "arity"
+        end
+      else if String.eqb op "glencoe_read" then
+        match args with
+        | [v] => match d_aval v with Some v' => e_result e_pfm (glencoe_read v') | None => bad "aval" end
+        | _ => bad "arity"
+        end
+      else if String.eqb op "fide_write" then
+        match args with
+        | [m] => match d_fm m with Some m' => e_result e_xml (fide_write m') | None => bad "fm" end
+        | _ => bad "arity"
+        end
+      else if String.eqb op "fide_read" then
+        match args with
+        | [v] => match d_xml v with Some v' => e_result e_pfm (fide_read v') | None => bad "xml" end
+        | _ => bad "arity"
+        end
+      else if String.eqb op "fama_read" then
+        match args with
+        | [v] => match d_xml v with Some v' => e_result e_pfm (fama_read v') | None => bad "xml" end
         | _ => bad "arity"
         end
       else if String.eqb op "echo_fm" then
